@@ -27,10 +27,26 @@ func init() {
 type c12Beh struct {
 	UDP string `json:"udp"`
 	TCP string `json:"tcp"`
+	// how the harness makes a "closesEarly" TCP endpoint concrete (seeded): atAccept, afterRequest, midHeader, afterHeader, midBody
+	CloseAt string `json:"closeAt,omitempty"`
 }
 type c12Case struct {
-	Beh   []c12Beh `json:"beh"`
-	Limit string   `json:"limit"`
+	Beh     []c12Beh `json:"beh"`
+	Limit   string   `json:"limit"`
+	Prelude string   `json:"prelude,omitempty"`
+}
+
+func silentCount(c c12Case) int {
+	ns := 0
+	for _, e := range c.Beh {
+		if e.UDP == "silent" {
+			ns++
+		}
+		if e.TCP == "silent" {
+			ns++
+		}
+	}
+	return ns
 }
 
 // endpointSet is the set of scripted endpoints of one case
@@ -39,6 +55,7 @@ type endpointSet struct {
 	closers []func()
 	seen    int32
 	kdc     *simKDC
+	cur     []*atomic.Value // per KDC: the behaviour in force (c12Beh); an endpoint that exists can change it between exchanges
 }
 
 // reservePort binds (without listening) a TCP socket on loopback so that the port number stays ours and connections to it
@@ -78,7 +95,10 @@ func (es *endpointSet) start(b c12Beh) error {
 	return err
 }
 
-func (es *endpointSet) startOnce(b c12Beh) error {
+func (es *endpointSet) startOnce(b0 c12Beh) error {
+	cur := &atomic.Value{}
+	cur.Store(b0)
+	b := b0 // which sockets exist is decided by the behaviour of the judged exchange
 	var port int
 	var tcpL net.Listener
 	if b.TCP == "refuses" {
@@ -108,6 +128,7 @@ func (es *endpointSet) startOnce(b c12Beh) error {
 		es.closers = append(es.closers, func() { u.Close() })
 	}
 	es.addrs = append(es.addrs, addr)
+	es.cur = append(es.cur, cur)
 	errReply := func(code int32) []byte {
 		e := messages.NewKRBError(messagesPrincipal("krbtgt", "C12.TEST.GOKRB5"), "C12.TEST.GOKRB5", code, "scripted")
 		bb, _ := e.Marshal()
@@ -123,7 +144,8 @@ func (es *endpointSet) startOnce(b c12Beh) error {
 				atomic.AddInt32(&es.seen, 1)
 				go func() {
 					defer c.Close()
-					if b.TCP == "closesEarly" {
+					b := cur.Load().(c12Beh)
+					if b.TCP == "closesEarly" && (b.CloseAt == "" || b.CloseAt == "atAccept") {
 						return
 					}
 					c.SetDeadline(time.Now().Add(20 * time.Second))
@@ -141,6 +163,19 @@ func (es *endpointSet) startOnce(b c12Beh) error {
 					}
 					var rep []byte
 					switch b.TCP {
+					case "closesEarly":
+						// an orderly close (the request was read) at a later point of the answer
+						full := es.kdc.handle(req, "tcp")
+						binary.BigEndian.PutUint32(h, uint32(len(full)))
+						switch b.CloseAt {
+						case "midHeader":
+							c.Write(h[:2])
+						case "afterHeader":
+							c.Write(h)
+						case "midBody":
+							c.Write(append(h, full[:len(full)/2]...))
+						}
+						return
 					case "silent":
 						io.Copy(io.Discard, c) // until the client gives up
 						return
@@ -180,6 +215,7 @@ func (es *endpointSet) startOnce(b c12Beh) error {
 				atomic.AddInt32(&es.seen, 1)
 				req := append([]byte{}, buf[:n]...)
 				var rep []byte
+				b := cur.Load().(c12Beh)
 				switch b.UDP {
 				case "silent":
 					continue
@@ -270,7 +306,17 @@ func cmdC12(args []string) error {
 		// configuration file is chosen here, seeded (the admissible results do not depend on it)
 		bs := append([]c12Beh{}, c.Beh...)
 		r.Shuffle(len(bs), func(i, j int) { bs[i], bs[j] = bs[j], bs[i] })
+		for i := range bs {
+			if bs[i].TCP == "closesEarly" {
+				bs[i].CloseAt = []string{"atAccept", "afterRequest", "midHeader", "afterHeader", "midBody", "midBody"}[r.Intn(6)]
+			}
+		}
 		c.Beh = bs
+		// every third case without a silent endpoint is the SECOND exchange of its client: an earlier one, against the same
+		// endpoints behaving differently, has gone before (what an exchange returns depends on how the endpoints behave now)
+		if ns := silentCount(c); ns == 0 && r.Intn(3) == 0 {
+			c.Prelude = []string{"tooBigThenTCP", "allKrbError", "allAnswer"}[r.Intn(3)]
+		}
 		jobs <- c
 	}
 	close(jobs)
@@ -319,6 +365,26 @@ func runC12Case(tw *traceWriter, kdc *simKDC, realm string, c c12Case) error {
 		}
 	}
 	classOK := size > 0 && ((c.Limit == "tcpOnly") || (c.Limit == "udpFirst" && size <= 1465) || (c.Limit == "tcpFirst" && size > 50))
+	if c.Prelude != "" {
+		// the earlier exchange of this client: the endpoints that exist behave as the prelude says, then as the case says
+		for i, b := range c.Beh {
+			pb := b
+			switch c.Prelude {
+			case "tooBigThenTCP":
+				pb.UDP, pb.TCP = "tooBig", "answers"
+			case "allKrbError":
+				pb.UDP, pb.TCP = "krbError", "krbError"
+			case "allAnswer":
+				pb.UDP, pb.TCP = "answers", "answers"
+			}
+			es.cur[i].Store(pb)
+		}
+		catch(func() { cl.Login() })
+		for i, b := range c.Beh {
+			es.cur[i].Store(b)
+		}
+		atomic.StoreInt32(&es.seen, 0)
+	}
 	var lerr error
 	t0 := time.Now()
 	p := catch(func() { lerr = cl.Login() })
@@ -340,7 +406,7 @@ func runC12Case(tw *traceWriter, kdc *simKDC, realm string, c c12Case) error {
 		res = "panic"
 	}
 	cl.Destroy()
-	tw.emit(map[string]interface{}{"beh": c.Beh, "limit": c.Limit, "obs": map[string]interface{}{"result": res, "panic": p, "text": text,
+	tw.emit(map[string]interface{}{"beh": c.Beh, "limit": c.Limit, "prelude": c.Prelude, "obs": map[string]interface{}{"result": res, "panic": p, "text": text,
 		"seen": atomic.LoadInt32(&es.seen), "classOK": classOK, "ms": int64(el / time.Millisecond), "reqsize": size}})
 	return nil
 }
